@@ -29,6 +29,10 @@ import (
 	"fmt"
 	"hash/fnv"
 	"io"
+	"regexp"
+	"sort"
+	"strconv"
+	"strings"
 	"sync"
 	"sync/atomic"
 	"time"
@@ -199,12 +203,16 @@ type Step struct {
 	Dest  string `json:"dest,omitempty"`
 	Every bool   `json:"judge_every_set,omitempty"`
 	RT    bool   `json:"round_trip_after_every_set,omitempty"`
+	Rd    string `json:"reader,omitempty"` // rt/xfer: reader device (see readerMenu); "" = plain
+	On    int    `json:"on,omitempty"`     // pair family: index of the live container the step works on
 }
 
 // Case is a replayable history.
 type Case struct {
-	Part    string `json:"part"` // history | saved
+	Part    string `json:"part"` // history | saved | pair
 	Kind    string `json:"kind"`
+	Kind2   string `json:"kind2,omitempty"`             // pair: configuration of the second live container
+	Cap     string `json:"palette_slice_cap,omitempty"` // saved: spare capacity of the palette slice handed to the constructor (see capMenu)
 	IDs     string `json:"ids"`
 	Place   string `json:"place"` // spread | cycle5+<0..4>
 	Steps   []Step `json:"steps,omitempty"`
@@ -225,6 +233,8 @@ var (
 	checksDone int64
 	nonCanon   int64
 	abandoned  int64
+	probesDone int64
+	destShort  int64
 )
 
 type machine struct {
@@ -242,18 +252,23 @@ type machine struct {
 	lastWire []byte
 	wireOK   bool // lastWire/last describe the current state
 	buf      bytes.Buffer
-	destOld  []int // values the last "same" destination held before it was overwritten from the wire
+	destOld  []int // values the last used destination held before it was overwritten from the wire
+
+	idsName, placeName string // id order / placement (the second container of a pair uses the other id order)
+	pfx                string // class prefix
 }
+
+var crossingRE = regexp.MustCompile(`crossing-[0-9]+-to-[0-9]+`)
 
 var pos5 = func(n int) []int { return []int{0, 1, 15, 16, n - 1} }
 
 func (m *machine) place() int {
 	n := m.k.n
 	var p int
-	if len(m.cs.Place) == 8 && m.cs.Place[:7] == "cycle5+" {
-		p = pos5(n)[(m.nset+int(m.cs.Place[7]-'0'))%5]
-	} else if m.cs.Place != "spread" {
-		engine.HarnessError("unknown placement %q", m.cs.Place)
+	if len(m.placeName) == 8 && m.placeName[:7] == "cycle5+" {
+		p = pos5(n)[(m.nset+int(m.placeName[7]-'0'))%5]
+	} else if m.placeName != "spread" {
+		engine.HarnessError("unknown placement %q", m.placeName)
 	} else {
 		p = (m.nset*37 + 5) % n // 37 is coprime to 64 and 4096: a permutation
 	}
@@ -263,9 +278,17 @@ func (m *machine) place() int {
 
 func (m *machine) fail(class, detail string) {
 	m.failed = true
+	class = m.pfx + class
+	if m.cs.Cap != "" {
+		// one class per failure kind whatever the boundary: the palette slice's capacity is the subject
+		class = crossingRE.ReplaceAllString(class, "crossing-a-boundary")
+	}
 	size := m.step*100000 + len(m.used)
 	if m.cs.Part == "saved" {
 		size += 10000000 + m.cs.D // prefer plain histories as witnesses of classes both families reach
+	}
+	if m.cs.Part == "pair" {
+		size += 20000000
 	}
 	// the witness is the history up to the failing step
 	cc := *m.cs
@@ -282,7 +305,7 @@ func (m *machine) fail(class, detail string) {
 		size = size*1024 + int(h.Sum32()%1024)
 	}
 	rep.FailLazy(class, size, func() engine.Failure {
-		return engine.Failure{Detail: fmt.Sprintf("%s ids=%s place=%s step %d (distinct values so far %d): %s", m.k.name, m.cs.IDs, m.cs.Place, m.step, len(m.used), detail), Case: cc}
+		return engine.Failure{Detail: fmt.Sprintf("%s ids=%s place=%s step %d (distinct values so far %d): %s", m.k.name, m.idsName, m.placeName, m.step, len(m.used), detail), Case: cc}
 	})
 }
 
@@ -431,6 +454,12 @@ func (m *machine) set(kind string, pos, v int, judged bool) bool {
 	}
 	what := "set/" + kind + "/" + cross + "," + wireTag(m.fromWire)
 	m.wireOK = false
+	// Get(pos) directly before and directly after Set(pos, v): the history Get(i) Set(i,v) Get(i)
+	// with nothing in between (the full comparison reads in ascending order and would hide a
+	// read that depends on the read before it)
+	if judged && !m.probe(what+"/Get-directly-before-Set", pos) {
+		return false
+	}
 	if pk, frame, p := engine.Guard(func() { m.c.Set(pos, v) }); p {
 		m.fail(what+"/Set/panic/"+frame+"/"+pk, fmt.Sprintf("Set(%d,%d) panicked: %s", pos, v, pk))
 		return false
@@ -441,17 +470,49 @@ func (m *machine) set(kind string, pos, v int, judged bool) bool {
 		m.used = append(m.used, v)
 	}
 	if judged {
+		if !m.probe(what+"/Get-directly-after-Set", pos) {
+			return false
+		}
 		return m.check(what)
 	}
 	return true
 }
 
-func (m *machine) nextID() int {
-	if len(m.used) >= len(m.ids) {
-		engine.HarnessError("id order exhausted")
+// probe is one isolated Get(pos) compared with the model.
+func (m *machine) probe(what string, pos int) bool {
+	var got int
+	if pk, frame, p := engine.Guard(func() { got = m.c.Get(pos) }); p {
+		m.fail(what+"/Get/panic/"+frame+"/"+pk, fmt.Sprintf("Get(%d) panicked: %s", pos, pk))
+		return false
 	}
-	// ids are consumed in order; used[] holds exactly the first len(used) of them
-	return m.ids[len(m.used)]
+	atomic.AddInt64(&probesDone, 1)
+	if got != m.model[pos] {
+		m.fail(what+"/Get/wrong-value", fmt.Sprintf("isolated Get(%d)=%d, model has %d", pos, got, m.model[pos]))
+		return false
+	}
+	return true
+}
+
+func (m *machine) isUsed(v int) bool {
+	for _, u := range m.used {
+		if u == v {
+			return true
+		}
+	}
+	return false
+}
+
+// nextID is the first id of the order, from index len(used) on, that the container does not hold.
+// (In plain histories ids are consumed in order and that is ids[len(used)]; after a transfer
+// from a container that draws from the other order the scan skips what came with it.)
+func (m *machine) nextID() int {
+	for j := len(m.used); j < len(m.ids); j++ {
+		if !m.isUsed(m.ids[j]) {
+			return m.ids[j]
+		}
+	}
+	engine.HarnessError("id order exhausted")
+	return 0
 }
 
 var (
@@ -459,11 +520,64 @@ var (
 	destDefault = map[string][2]int{"blocks": {7777, 7778}, "biomes": {33, 34}}
 )
 
+// destClass is the destination as it appears in class strings (no sizes).
+func destClass(dest string) string {
+	if i := strings.IndexByte(dest, ':'); i >= 0 {
+		return dest[:i] + "-at-another-size"
+	}
+	return dest
+}
+
+// otherIDs returns n ids of the other id order that the source does not hold (fewer when the
+// registry has no more).
+func (m *machine) otherIDs(n int) []int {
+	other := "high"
+	if m.idsName == "high" {
+		other = "low"
+	}
+	var cand []int
+	for _, id := range m.k.idOrder(other) {
+		if len(cand) == n {
+			break
+		}
+		if !m.isUsed(id) {
+			cand = append(cand, id)
+		}
+	}
+	if len(cand) < n {
+		atomic.AddInt64(&destShort, 1)
+	}
+	return cand
+}
+
+// makeDest builds the container a wire form is read into:
+//
+//	fresh        never used
+//	small        grown by Set to 2 values
+//	large        filled from a direct-form wire
+//	large-grown  grown by Set into the direct form
+//	same         grown by Set to the source's number of distinct values, other values
+//	grown:N      grown by Set to N distinct values (any representation, narrower or wider)
+//	wired:N      the same contents, but received through an earlier ReadFrom
+//	data:N       built by New*WithData from an N-entry save pair (palette slice with cap == len)
+//	self         the source itself reads its own bytes back
 func (m *machine) makeDest(dest string) (c cont, perr string) {
 	k := m.k
 	dd := destDefault[k.name]
+	if dest == "self" {
+		m.destOld = append([]int(nil), m.used...)
+		return m.c, ""
+	}
+	how, prevD := dest, 0
+	if i := strings.IndexByte(dest, ':'); i >= 0 {
+		n, err := strconv.Atoi(dest[i+1:])
+		if err != nil || n < 1 {
+			engine.HarnessError("bad destination %q", dest)
+		}
+		how, prevD = dest[:i], n
+	}
 	pk, _, p := engine.Guard(func() {
-		switch dest {
+		switch how {
 		case "fresh":
 			c = k.fresh(dd[0])
 		case "small":
@@ -481,31 +595,37 @@ func (m *machine) makeDest(dest string) (c cont, perr string) {
 			for j := 0; j < cnt; j++ {
 				c.Set((j*37+11)%k.n, hi[(j+7)%len(hi)])
 			}
-		case "same":
-			// a container that was used before at the SAME number of distinct values (same width and
-			// representation as the source) but with other values: stale per-palette state shows
-			// only when one of its old values is set again after the transfer
-			inUse := map[int]bool{}
-			for _, u := range m.used {
-				inUse[u] = true
+		case "same", "grown", "wired":
+			// a container that was used before with other values: stale per-palette state shows
+			// only when one of its old values is set again after the transfer, recycled capacity
+			// when the contents grow afterwards
+			want := len(m.used)
+			if prevD > 0 {
+				want = prevD
 			}
-			other := "high"
-			if m.cs.IDs == "high" {
-				other = "low"
-			}
-			var cand []int
-			for _, id := range k.idOrder(other) {
-				if !inUse[id] {
-					cand = append(cand, id)
-				}
-				if len(cand) == len(m.used) {
-					break
-				}
-			}
+			cand := m.otherIDs(want)
 			c = k.fresh(cand[0])
 			for j := 1; j < len(cand); j++ {
 				c.Set((j*37+11)%k.n, cand[j])
 			}
+			if how == "wired" {
+				var b bytes.Buffer
+				if _, err := c.WriteTo(&b); err != nil {
+					panic("cannot write the destination's previous contents: " + err.Error())
+				}
+				c = k.fresh(dd[0])
+				if _, err := c.ReadFrom(bytes.NewReader(b.Bytes())); err != nil {
+					panic("cannot fill the destination from its previous contents: " + err.Error())
+				}
+			}
+			m.destOld = cand
+		case "data":
+			cand := m.otherIDs(prevD)
+			vals := make([]int, k.n)
+			for i := range vals {
+				vals[i] = cand[(i*7+1)%len(cand)]
+			}
+			c = k.withData(refpal.WriteSaved(k.ref, cand, vals), cand, cand[:len(cand):len(cand)])
 			m.destOld = cand
 		default:
 			engine.HarnessError("unknown destination %q", dest)
@@ -517,8 +637,9 @@ func (m *machine) makeDest(dest string) (c cont, perr string) {
 	return
 }
 
-func (m *machine) roundTrip(dest string, judged bool) bool {
-	what := "rt/dest=" + dest
+func (m *machine) roundTrip(s Step, judged bool) bool {
+	dest := s.Dest
+	what := "rt/dest=" + destClass(dest)
 	if !judged {
 		if !m.rawWire() {
 			return false
@@ -531,11 +652,26 @@ func (m *machine) roundTrip(dest string, judged bool) bool {
 	}
 	dst, perr := m.makeDest(dest)
 	if perr != "" {
-		m.fail("rt/build-destination/panic/dest="+dest, perr)
+		m.fail("rt/build-destination/panic/dest="+destClass(dest), perr)
 		return false
 	}
-	wire := m.lastWire
-	rd := &engine.PlainReader{Data: append(append([]byte(nil), wire...), 0xA5, 0x5A, 0xA5, 0x5A)}
+	return m.readWire(dst, m.lastWire, s, what, judged)
+}
+
+// readWire reads wire into dst through the step's reader device; dst becomes the machine's
+// container (the model must already describe the wire's contents).
+func (m *machine) readWire(dst cont, wire []byte, s Step, what string, judged bool) bool {
+	if s.Rd != "" && s.Rd != "plain" {
+		what += ",reader=" + s.Rd
+	}
+	wire = append([]byte(nil), wire...)
+	rd, consumed := newReader(s.Rd, wire)
+	// one Get on the destination right before it is overwritten and the same Get first thing
+	// afterwards: the history Get(i) ReadFrom Get(i)
+	probe := s.Pos % m.k.n
+	if judged {
+		engine.Guard(func() { dst.Get(probe) })
+	}
 	var n int64
 	var err error
 	if pk, frame, p := engine.Guard(func() { n, err = dst.ReadFrom(rd) }); p {
@@ -547,8 +683,8 @@ func (m *machine) roundTrip(dest string, judged bool) bool {
 		m.fail(what+"/ReadFrom/error-on-own-output", fmt.Sprintf("ReadFrom: %v", err))
 		return false
 	}
-	if n != int64(len(wire)) || rd.Pos != len(wire) {
-		m.fail(what+"/ReadFrom/consumed-count", fmt.Sprintf("ReadFrom returned n=%d and took %d bytes from the reader; the container is %d bytes", n, rd.Pos, len(wire)))
+	if n != int64(len(wire)) || consumed() != len(wire) {
+		m.fail(what+"/ReadFrom/consumed-count", fmt.Sprintf("ReadFrom returned n=%d and took %d bytes from the reader; the container is %d bytes", n, consumed(), len(wire)))
 		return false
 	}
 	m.c = dst
@@ -556,6 +692,9 @@ func (m *machine) roundTrip(dest string, judged bool) bool {
 	m.wireOK = false
 	if !judged {
 		return m.agrees()
+	}
+	if !m.probe(what+"/Get-directly-after-ReadFrom", probe) {
+		return false
 	}
 	return m.check(what)
 }
@@ -609,7 +748,7 @@ func (m *machine) growTo(target int, every, rt, judged bool, kind string) bool {
 			return false
 		}
 		if rt {
-			if !m.roundTrip("fresh", j) {
+			if !m.roundTrip(Step{Op: "rt", Dest: "fresh"}, j) {
 				return false
 			}
 		}
@@ -665,16 +804,30 @@ func (m *machine) exec(s Step, judged bool) bool {
 		}
 		return m.growTo(target, false, false, judged, "new-id")
 	case "rt":
-		dest := s.Dest
-		if dest == "used" { // previously smaller / previously larger, alternating with the step index
-			dest = []string{"small", "large"}[m.step%2]
+		if s.Dest == "used" { // previously smaller / previously larger, alternating with the step index
+			s.Dest = []string{"small", "large"}[m.step%2]
 		}
-		return m.roundTrip(dest, judged)
+		return m.roundTrip(s, judged)
 	case "reload":
 		return m.reload(s.Dest, judged)
 	}
 	engine.HarnessError("unknown step %q", s.Op)
 	return false
+}
+
+// newMachine starts a fresh container holding the default value (the first id of the order).
+func newMachine(k *kindCfg, cs *Case, idsName string) *machine {
+	ids := k.idOrder(idsName)
+	m := &machine{k: k, cs: cs, ids: ids, model: make([]int, k.n), idsName: idsName, placeName: cs.Place}
+	for i := range m.model {
+		m.model[i] = ids[0]
+	}
+	m.used = []int{ids[0]}
+	if pk, _, p := engine.Guard(func() { m.c = k.fresh(ids[0]) }); p {
+		m.fail("new/constructor/panic", pk)
+		return nil
+	}
+	return m
 }
 
 // runHistory replays the case on a fresh container. Steps before cs.From are applied unjudged
@@ -684,14 +837,8 @@ func runHistory(cs *Case) {
 	if k == nil {
 		engine.HarnessError("unknown kind %q", cs.Kind)
 	}
-	ids := k.idOrder(cs.IDs)
-	m := &machine{k: k, cs: cs, ids: ids, model: make([]int, k.n)}
-	for i := range m.model {
-		m.model[i] = ids[0]
-	}
-	m.used = []int{ids[0]}
-	if pk, _, p := engine.Guard(func() { m.c = k.fresh(ids[0]) }); p {
-		m.fail("new/constructor/panic", pk)
+	m := newMachine(k, cs, cs.IDs)
+	if m == nil {
 		return
 	}
 	atomic.AddInt64(&histories, 1)
@@ -745,7 +892,7 @@ func runSaved(cs *Case) {
 		engine.HarnessError("reference cannot read its own saved pair: %v", err)
 	}
 	bits := k.ref.SavedBits(d)
-	m := &machine{k: k, cs: cs, ids: ids, model: want}
+	m := &machine{k: k, cs: cs, ids: ids, model: want, idsName: cs.IDs, placeName: cs.Place}
 	// "used" ids: every palette entry counts as present
 	m.used = append([]int(nil), pal...)
 	m.fromWire = true
@@ -755,7 +902,33 @@ func runSaved(cs *Case) {
 	}
 	what := "saved/" + k.ctorName + "/vanilla-save-pair/" + sizeClass
 	atomic.AddInt64(&histories, 1)
-	if pk, frame, p := engine.Guard(func() { m.c = k.withData(longs, pal, pal[:len(pal):len(pal)]) }); p {
+	// the palette slice as the caller hands it over: its spare capacity is not part of the
+	// saved (palette, data) pair and must not show in the container's behaviour
+	full := d // entries the in-memory palette of this width can hold
+	if bits > 0 && bits <= k.ref.MaxIndirect {
+		full = 1 << bits
+		if k.name == "blocks" && bits < 4 {
+			full = 16
+		}
+	}
+	spare := 0
+	switch cs.Cap {
+	case "":
+	case "plus1":
+		spare = 1
+	case "full":
+		spare = full - d
+	case "over":
+		spare = full - d + 1
+	case "double":
+		spare = 2*full - d + 3
+	default:
+		engine.HarnessError("unknown palette slice capacity %q", cs.Cap)
+	}
+	if cs.Cap != "" {
+		m.pfx = "palette-slice-with-spare-capacity/"
+	}
+	if pk, frame, p := engine.Guard(func() { m.c = k.withData(longs, pal, make([]int, d, d+spare)) }); p {
 		m.fail(what+"/panic/"+frame+"/"+pk, fmt.Sprintf("constructor panicked on a %d-entry palette and %d longs (%d-bit indices): %s", d, len(longs), bits, pk))
 		return
 	}
@@ -775,12 +948,19 @@ func runSaved(cs *Case) {
 }
 
 func judge(cs *Case) {
-	if cs.Part == "saved" {
+	switch cs.Part {
+	case "saved":
 		runSaved(cs)
-	} else {
+	case "pair":
+		runPair(cs)
+	default:
 		runHistory(cs)
 	}
 }
+
+// capMenu: spare capacity of the palette slice given to New*WithData, relative to what the
+// in-memory palette of the pair's width holds ("" = none: cap == len, as go-mc's save reader builds it).
+var capMenu = []string{"plus1", "full", "over", "double"}
 
 // ---------------------------------------------------------------------------------------
 // enumeration
@@ -851,6 +1031,40 @@ func buildTasks(thorough bool) []Case {
 					}
 				}
 			}
+			// readers: every state d x every reader device x {never used, previously larger} destination,
+			// the probe position (Get before / first Get after ReadFrom) cycling through pos5
+			for d := 1; d <= k.dmax-2; d++ {
+				for ri, rd := range readerMenu[1:] {
+					for di, dest := range []string{"fresh", "large"} {
+						c := Case{Part: "history", Kind: kn, IDs: ids, Place: "spread", fam: "reader", From: 1}
+						c.Steps = []Step{{Op: "grow-to", Arg: d}, {Op: "rt", Dest: dest, Rd: rd, Pos: pos5(n)[(d+ri+di)%5]},
+							{Op: "new", Pos: 1}, {Op: "existing", Pos: 0, Arg: 1}}
+						tasks = append(tasks, c)
+					}
+				}
+			}
+			// destinations used before at ANOTHER size: every source state d (quick: around the
+			// boundaries) x every previous size N of the destination x how it got there, then the
+			// destination's old values are set again and the contents grow through the next boundaries
+			var destNs []int
+			if kn == "blocks" {
+				destNs = []int{1, 2, 3, 15, 16, 17, 31, 32, 33, 64, 65, 128, 129, 255, 256, 257, 300}
+			} else {
+				destNs = []int{1, 2, 3, 4, 5, 6, 7, 8, 9, 10, 11, 12}
+			}
+			for d := 1; d <= k.dmax-2; d++ {
+				if !thorough && !boundary[d] {
+					continue
+				}
+				for ni, N := range destNs {
+					for _, how := range []string{"grown", "wired", "data"} {
+						c := Case{Part: "history", Kind: kn, IDs: ids, Place: "spread", fam: "dest-size", From: 1}
+						c.Steps = []Step{{Op: "grow-to", Arg: d}, {Op: "rt", Dest: how + ":" + strconv.Itoa(N), Pos: pos5(n)[(d+ni)%5]},
+							{Op: "old-dest", Pos: 5}, {Op: "new", Pos: 0}, {Op: "G"}, {Op: "P"}, {Op: "existing", Pos: 1, Arg: 1}, {Op: "old-dest", Pos: n - 1, Arg: 1}, {Op: "P"}}
+						tasks = append(tasks, c)
+					}
+				}
+			}
 			// macro histories: all words of the given depth (shorter words are prefixes, every step is judged)
 			macro := []Step{{Op: "G"}, {Op: "P"}, {Op: "existing", Pos: 1, Arg: 1}, {Op: "rt", Dest: "fresh"}, {Op: "rt", Dest: "used"}, {Op: "reload", Dest: "exported"}}
 			type start struct{ d, depth int }
@@ -907,11 +1121,17 @@ func buildTasks(thorough bool) []Case {
 							tasks = append(tasks, Case{Part: "saved", Kind: kn, IDs: ids, Place: "spread", D: d, Pattern: pat, Steps: fu, NilData: true, fam: "saved"})
 						}
 					}
+					// the same pair handed over in a palette slice with spare capacity, then grown
+					// through the next two boundaries
+					for _, cp := range capMenu {
+						tasks = append(tasks, Case{Part: "saved", Kind: kn, IDs: ids, Place: "spread", D: d, Pattern: pat, Cap: cp, fam: "saved-cap",
+							Steps: []Step{{Op: "new", Pos: 0}, {Op: "G"}, {Op: "P"}, {Op: "existing", Pos: 1, Arg: 1}, {Op: "G"}, {Op: "P"}}})
+					}
 				}
 			}
 		}
 	}
-	return tasks
+	return append(tasks, pairTasks(thorough)...)
 }
 
 func selftest() {
@@ -946,7 +1166,7 @@ func selftest() {
 
 func main() {
 	rep = engine.NewReport("C12")
-	rep.Rule = "spine (one new id at a time through every boundary, judged after every Set) + sweep (every d x every operation of the alphabet, transfers followed by every follow-up) + macro histories (all words of depth <= 5 over 7 macro operations from each start size) + save-format pairs for palette sizes through every width; x {blocks,biomes} x 2 id orders x placements. distinct = distinct (configuration, step list) tuples; non-trivial = all (each compares all positions and decodes the wire form after every judged step)"
+	rep.Rule = "spine (one new id at a time through every boundary, judged after every Set) + sweep (every d x every operation of the alphabet, transfers followed by every follow-up) + macro histories (all words of depth <= 5 over 7 macro operations from each start size) + save-format pairs for palette sizes through every width (x spare capacity of the palette slice) + reader devices (every d x 6 devices x 2 destinations) + destinations used before at another size (d x N x {grown, wired, built from data}) + pair histories (two live containers, all words of depth <= 3 over 12 operations from every pair of start sizes, both compared after every step) + isolated Get(i) directly before/after every judged Set(i) and ReadFrom; x {blocks,biomes} x 2 id orders x placements. distinct = distinct (configuration, step list) tuples; non-trivial = all (each compares all positions and decodes the wire form after every judged step)"
 	initKinds(rep.Thorough())
 	selftest()
 	if rep.ReplayPath != "" {
@@ -967,6 +1187,22 @@ func main() {
 		rep.Finish()
 	}
 	tasks := buildTasks(rep.Thorough())
+	// Execution order (matters only when the deadline stops the walk): the cheap 64-entry
+	// configuration in full first, then the block-state families from the smallest to the largest.
+	prio := func(c *Case) int {
+		switch {
+		case c.Kind == "biomes" || c.Kind2 == "biomes":
+			return 0
+		case c.fam == "sweep":
+			return 2
+		case c.fam == "pair":
+			return 3
+		case c.fam == "macro":
+			return 4
+		}
+		return 1
+	}
+	sort.SliceStable(tasks, func(i, j int) bool { return prio(&tasks[i]) < prio(&tasks[j]) })
 	deadline := time.Now().Add(50 * time.Second)
 	if rep.Thorough() {
 		deadline = time.Now().Add(13 * time.Minute)
@@ -985,7 +1221,7 @@ func main() {
 		rep.Eval(1)
 	})
 	if skipped > 0 {
-		rep.Cap("deadline reached: %d of %d histories not executed (order: per kind and id order: spines, sweep, macro, saved)", skipped, len(tasks))
+		rep.Cap("deadline reached: %d of %d histories not executed (order: all biome histories; block states: spines, readers, destination sizes, saved pairs; sweep; pairs; macro)", skipped, len(tasks))
 	}
 	rep.Count("histories_abandoned_silently_because_a_replayed_(already_judged)_prefix_step_broke_the_model", abandoned)
 	var parts = map[string]int64{}
@@ -1011,11 +1247,19 @@ func main() {
 	rep.Count("full_comparisons_(all_positions+wire_decode)", checksDone)
 	rep.Count("wire_forms_whose_bits_byte_is_not_what_vanilla_writes_(accepted_by_vanilla's_reader)", nonCanon)
 	rep.Unspec(nonCanon)
+	rep.Count("isolated_Get_probes_(Get(i)_directly_before/after_Set(i,v)_or_ReadFrom)", probesDone)
+	rep.Count("pair_histories_executed_(two_live_containers,_both_compared_after_every_judged_step)", pairsRun)
+	rep.Count("used_destinations_built_with_fewer_old_values_than_asked_(registry_exhausted)", destShort)
+	rep.Extra("reader_devices", readerMenu)
+	rep.Extra("destinations", []string{"fresh", "small", "large", "large-grown", "same", "grown:N", "wired:N", "data:N", "self", "other live container (pair xfer)"})
+	rep.Extra("palette_slice_spare_capacity_menu", append([]string{"none (cap == len)"}, capMenu...))
+	rep.Extra("pair_depth", map[bool]int{false: 3, true: 4}[rep.Thorough()])
 	rep.Extra("dmax", map[string]int{"blocks": kinds["blocks"].dmax, "biomes": kinds["biomes"].dmax})
 	rep.Extra("registry_sizes", map[string]int{"blocks": kinds["blocks"].ref.RegistrySize, "biomes": kinds["biomes"].ref.RegistrySize})
 	rep.Sample(tasks[len(tasks)/2])
 	rep.Assume("reference reader/packer (ref/refpal) is trusted; pinned to the published wiki.vg packing example, the VarInt table and hand-assembled containers")
 	rep.Assume("a bits-per-entry byte that vanilla's reader maps to the right storage width (1..3 for a 4-bit block palette, 9..14 for direct block ids) is accepted: the statement asks for the protocol encoding as judged by an independent decoder, and vanilla's decoder applies exactly these width rules; such wire forms are counted as unspecified")
+	rep.Assume("every reader device is a conformant io.Reader (short counts, optional ReadByte, (n>0, io.EOF) on the last byte); failing readers and writers are not exercised (statement silent)")
 	rep.Assume("ids stay inside the registries; Set with an id outside the registry and Get/Set with an out-of-range position are not exercised (statement silent)")
 	rep.Finish()
 }
